@@ -81,8 +81,10 @@ class CompWorld:
         self.nops += 1
         saved = random.random
         random.random = self._next_weight
+        from .line import _EventWatchdog
         try:
-            self.apply_op(tuple(label))
+            with _EventWatchdog(lambda: f'operation {tuple(label)}'):
+                self.apply_op(tuple(label))
         finally:
             random.random = saved
 
